@@ -2,11 +2,16 @@
 #![allow(clippy::all)]
 #![allow(static_mut_refs)]
 
+pub mod bulk;
 pub mod chk;
+pub mod cost;
+pub mod crash;
 pub mod gen;
 pub mod hook;
 pub mod iters;
+pub mod misc;
 pub mod q;
+pub mod serde_h;
 pub mod step;
 pub mod sym;
 pub mod types;
